@@ -311,10 +311,26 @@ def chk_long(case):
         b = oc.vectorise_batch([s, unit], case["norm"])
         if len(b) != 2 or not close(b[0], got, 0.0):
             violation(leg, case, "long-oligo-batch", "vectorise_batch([long, short]) differs from the per-sequence results")
-        gk = sum(1 for _ in pk.KmerGenerator(s, k))
-        wk = ORACLE.ask(op="kmers_count", seq=s, k=k)["ok"]
-        if gk != wk:
-            violation(leg, case, "long-kmer-count", f"k-mer iterator yields {gk} items on a long string, core {wk}")
+        gk, hk = 0, 0
+        for f, r in pk.KmerGenerator(s, k):
+            hk = (hk * 1000003 + f * 31 + r) & 0xFFFFFFFFFFFFFFFF
+            gk += 1
+        wk = ORACLE.ask(op="kmers_digest", seq=s, k=k)["ok"]
+        if [gk, str(hk)] != wk:
+            violation(leg, case, "long-kmer-items", f"k-mer iterator yields {gk} items (digest {hk}) on a long string, core {wk}")
+        # whole-sequence CGR of a long nucleotide-only prefix (block-wise fast paths start at a few thousand bases),
+        # alone and as the long element of a batch
+        nuc = "".join(c for c in unit if c in "ACGTUacgtu") or "A"
+        cs = (nuc * (case.get("cgr_len", 20000) // len(nuc) + 1))[: case.get("cgr_len", 20000)]
+        cg = pk.CgrComputer(case.get("s", 16))
+        gp = [list(p) for p in cg.vectorise_one(cs)]
+        wp = ORACLE.ask(op="cgr", seq=cs, s=case.get("s", 16))["ok"]
+        if gp != wp:
+            first = next((i for i, (a, b) in enumerate(zip(gp, wp)) if a != b), min(len(gp), len(wp)))
+            violation(leg, case, "long-cgr-differs", f"CGR of {len(cs)} bases differs from the core at point {first}: {gp[first:first+1]} vs {wp[first:first+1]}")
+        gb = cg.vectorise_batch([nuc, cs, nuc])
+        if len(gb) != 3 or [list(p) for p in gb[1]] != gp:
+            violation(leg, case, "long-cgr-batch", "vectorise_batch([short, long, short]) differs from the per-sequence result")
         gm = [tuple(x) for x in pk.MinimiserGenerator(s, w, m)]
         wm = [tuple(x) for x in ORACLE.ask(op="mins", seq=s, w=w, m=m)["ok"]]
         if gm != wm:
@@ -344,7 +360,8 @@ def drivers():
             "unit": st.one_of(st.text(alphabet=NUC + "\u00e9\u20ac", min_size=1, max_size=40), st.text(alphabet="ACGT\u00e9", min_size=1, max_size=9), st.sampled_from(["\u00e9", "A\u00e9", "ACG\U0001F441T", "acgtN"])),
             "bytes": st.sampled_from([1 << 20, (1 << 20) + 7, 1_300_000, 2_100_000]),
             "k": k_st, "ok": st.integers(1, 6), "norm": st.booleans(),
-            "w": st.integers(20, 60), "m": st.integers(1, 20)}), 0.002),
+            "w": st.integers(20, 60), "m": st.integers(1, 20),
+            "cgr_len": st.sampled_from([8191, 8192, 8193, 20000, 65536, 70001, 150000]), "s": S_ST}), 0.003),
         "released-string": (wm_st().flatmap(lambda wm: st.fixed_dictionaries({"parts": st.lists(st.one_of(st.text(alphabet=NUC, min_size=1, max_size=60), sprinkled), min_size=1, max_size=12), "k": k_st, "w": st.just(min(wm[0], 40)).map(lambda w: max(w, wm[1])), "m": st.just(wm[1])})), 0.17),
     }
 
